@@ -284,6 +284,24 @@ func record(seed int64, traces, n int, out, mode string) {
 		if t%5 == 0 { // the shape of DESIGN.md section 5: byte limit 100 per sender, sizes 40/100
 			cfg["sb"], cfg["sc"] = 100, 10
 		}
+		// op mix (percent): add, remove, notify, select; the rest: sweep (async only) / clear
+		pAdd, pRemove, pNotify, pSelect := 50, 14, 11, 18
+		trSizes := sizes
+		switch t % 5 {
+		case 1:
+			// churn: few senders with one or two transactions each, eviction thresholds at the accepted minimum, mostly
+			// add/remove of the same transactions: many evictions with senders emptied and re-added in between
+			nSenders, maxNonce = 2+rng.Intn(2), 1
+			cfg = M{"ev": true, "nb": 4 + rng.Intn(6), "cnt": 4, "sb": 100, "sc": 10, "ne": 1 + rng.Intn(2)}
+			trSizes = []int{3, 5}
+			pAdd, pRemove, pNotify, pSelect = 55, 38, 0, 5
+		case 3:
+			// rollback: account nonces are notified up and down (a reverted block), selections in between
+			nSenders, maxNonce = 1+rng.Intn(2), 5
+			cfg = M{"ev": false, "nb": 0, "cnt": 0, "sb": 1000, "sc": 20, "ne": 0}
+			trSizes = []int{1, 2}
+			pAdd, pRemove, pNotify, pSelect = 35, 5, 33, 25
+		}
 		s, ok := newSut(cfg)
 		if !ok {
 			vtrace.Broken(fmt.Sprintf("config rejected: %v", cfg))
@@ -292,23 +310,23 @@ func record(seed int64, traces, n int, out, mode string) {
 		w.NewTraceWith("New", cfg, M{"ok": true}, s.proj())
 		var sample []interface{}
 		for i := 0; i < n; i++ {
-			k := txKey{1 + rng.Intn(nSenders), rng.Intn(maxNonce + 1), 1 + rng.Intn(2), sizes[rng.Intn(len(sizes))]}
+			k := txKey{1 + rng.Intn(nSenders), rng.Intn(maxNonce + 1), 1 + rng.Intn(2), trSizes[rng.Intn(len(trSizes))]}
 			if rng.Intn(4) == 0 { // low nonces (nonce 0 included) more often
 				k.n = rng.Intn(2)
 			}
 			var a string
 			var in M
 			switch r := rng.Intn(100); {
-			case r < 50:
+			case r < pAdd:
 				a, in = "AddTx", M{"tx": k.m()}
-			case r < 64:
+			case r < pAdd+pRemove:
 				if len(s.known) > 0 && rng.Intn(5) > 0 {
 					k = s.known[rng.Intn(len(s.known))]
 				}
 				a, in = "RemoveTx", M{"tx": k.m()}
-			case r < 75:
+			case r < pAdd+pRemove+pNotify:
 				a, in = "Notify", M{"s": k.s, "n": rng.Intn(maxNonce + 1)}
-			case r < 93:
+			case r < pAdd+pRemove+pNotify+pSelect:
 				a, in = "Select", M{"n": rng.Intn(10), "b": rng.Intn(4)}
 			case r < 98:
 				if mode != "async" {
